@@ -579,14 +579,16 @@ inductive HPart
 /-- Recognised link forms (after the fix).  Each has a meaning in the model:
 * a literal `https://…` or `javascript:…` — not a reference to a type;
 * `#` + namespace id / `#` + `tag_id` — same-page links of the side bar;
-* `up` + `url_from_type` — `typeHref`;
+* `up` + `url_from_type`, inside `if nested and t.short_name != "_"` — `typeHref`;
 * `index.html#` + the id of the namespace entry of the page's own type — `backHref`. -/
-def hrefFormOk (ps : List HPart) : Bool :=
+def hrefFormOk (guards : List String) (ps : List HPart) : Bool :=
   match ps with
   | [.lit s] => "https://".toList.isPrefixOf s.toList || "javascript:".toList.isPrefixOf s.toList
   | [.lit "#", .ex "t.full_name.replace(\".\",\"_\")"] => true
   | [.lit "#", .ex "type|tag_id"] => true
-  | [.ex "up", .ex "t|url_from_type"] => true
+  | [.ex "up", .ex "t|url_from_type"] =>
+    -- only for types that have an entry of their own: not for the doc holder `_`
+    guards.any (· == "(nested and t.short_name ne \"_\")")
   | [.lit "index.html#", .ex "T.full_namespace.replace(\".\",\"_\")"] => true
   | _ => false
 
